@@ -4,6 +4,8 @@ Model: core/resolve.rs (`resolveReq`), context.rs request channels (leaves), req
 -/
 import CruxVerif.Lemmas.Resolve
 import CruxVerif.Lemmas.Bridge
+import CruxVerif.Lemmas.Deliver
+import CruxVerif.Lemmas.K2
 namespace Props.C02
 open M.Rt
 
@@ -43,6 +45,56 @@ theorem serialized_agrees (reg : M.Slab Resolve) (id : Nat) (v : Val) (w : World
     (M.Bridge.resume reg id (some v) w).2.2 = (resolveReq r v w).2.2 ∧
     ((M.Bridge.resume reg id (some v) w).1 = .ok ↔ (resolveReq r v w).2.1 = .ok) :=
   M.Bridge.resume_exact reg id v w r hg
+
+/-- END TO END, one request: a task block that a poll with waker `wk` left suspended at the one-shot request of leaf `l`
+    (`ParkedB`, which every poll of a host-free block establishes — `Props.C07.poll_parks`) and whose consumer is alive:
+    resolving that request with `v` is accepted, puts exactly `v` into that request's own channel, leaves EVERY other request's
+    channel as it was, wakes exactly the asking task's waker, and the task's next poll (under any waker) continues with `v`
+    bound to the request's variable. -/
+theorem response_reaches_exactly_the_asker (pn : Waker → Nat → World → Option (NextRes × World)) (f : Nat) (wk wk2 : Waker)
+    (sink : Sink) (env : Env) (x l : Nat) (rest : List Instr) (w : World) (v : Val)
+    (hpark : ParkedB wk w (.mk env (.req x l) rest)) (halive : (w.leaf l).receiverAlive = true)
+    (hempty : (w.leaf l).queue = []) :
+    let w' := (resolveReq (.once l) v w).2.2
+    (resolveReq (.once l) v w).2.1 = .ok ∧
+    (w'.leaf l).queue = [v] ∧
+    (∀ l', l ≠ l' → w'.leaf l' = w.leaf l') ∧
+    wokenBy wk w' ∧
+    pollBlock pn (f + 1) wk2 sink (.mk env (.req x l) rest) w' =
+      pollBlock pn f wk2 sink (.mk (env.set x v) .idle rest) (w'.dropReceiver l) := by
+  simp only [ParkedB, ParkedP] at hpark
+  obtain ⟨hl, hwk⟩ := hpark
+  have hq : ((resolveReq (.once l) v w).2.2.leaf l).queue = [v] := by
+    rw [resolve_once_delivers l v w hl halive, hempty]; rfl
+  refine ⟨(resolve_once_consumes l v w).2, hq, ?_, ?_, ?_⟩
+  · intro l' hne; exact resolve_other_leaves (.once l) l (Or.inl rfl) v w l' hne
+  · exact resolve_wakes_asker (.once l) l (Or.inl rfl) v w wk hwk halive
+  · exact poll_binds_value pn f wk2 sink env x l rest _ v [] hq
+
+/-- the same for a stream item: accepted while the consumer is alive, appended in order to that stream's own channel, no
+    other channel touched, the consumer's waker woken -/
+theorem stream_item_reaches_exactly_the_consumer (wk : Waker) (env : Env) (x l count limit : Nat) (body rest : List Instr)
+    (w : World) (v : Val) (hpark : ParkedB wk w (.mk env (.streamWait x l count limit body) rest))
+    (halive : (w.leaf l).receiverAlive = true) :
+    let w' := (resolveReq (.many l) v w).2.2
+    (resolveReq (.many l) v w).2.1 = .ok ∧
+    (w'.leaf l).queue = (w.leaf l).queue ++ [v] ∧
+    (∀ l', l ≠ l' → w'.leaf l' = w.leaf l') ∧
+    wokenBy wk w' := by
+  simp only [ParkedB, ParkedP] at hpark
+  obtain ⟨hl, hwk⟩ := hpark
+  refine ⟨(resolve_many_iff l v w).1.mpr halive, (resolve_many_appends l v w hl halive).2, ?_, ?_⟩
+  · intro l' hne; exact resolve_other_leaves (.many l) l (Or.inr rfl) v w l' hne
+  · exact resolve_wakes_asker (.many l) l (Or.inr rfl) v w wk hwk halive
+
+/-- the consumer's next poll takes exactly the oldest undelivered item and leaves the rest queued, in order -/
+theorem stream_items_consumed_in_order (pn : Waker → Nat → World → Option (NextRes × World)) (f : Nat) (wk : Waker)
+    (sink : Sink) (env : Env) (x l count limit : Nat) (body rest : List Instr) (w : World) (v : Val) (q : List Val)
+    (hq : (w.leaf l).queue = v :: q) (hlim : ¬ (limit > 0 ∧ count ≥ limit)) :
+    pollBlock pn (f + 1) wk sink (.mk env (.streamWait x l count limit body) rest) w =
+      pollBlock pn f wk sink (.mk env (.streamBody x l count limit body (.mk (env.set x v) .idle body)) rest)
+        (w.modLeaf l fun lf => { lf with queue := q }) :=
+  poll_stream_binds_value pn f wk sink env x l count limit body rest w v q hq hlim
 
 /-! Not proved here: over whole runs, that the values received by the task that issued request `r` are exactly those
     resolved on `r` and no other task receives them. That is the global invariant "leaf ids held by live blocks are
